@@ -84,6 +84,10 @@ theorem Client_sign_eq {W} (P : Prims W) (c : Client) (msg : Bytes) :
 theorem get_key_id_eq {W} (P : Prims W) (c : Client) : Crypto_get_key_id_obj P c = some (keyId P c.edPub) := by
   simp [Crypto_get_key_id_obj, Crypto_get_key_id, keyId, magicKey]
 
+/-- `Crypto.get_aes_key_id()` of a client = `get_key_aes_id` of its Ed25519 seed: `H(d4adbc2d ‖ seed)`. -/
+theorem get_aes_key_id_eq {W} (P : Prims W) (c : Client) : Crypto_get_aes_key_id_obj P c = some (keyAesId P c.edPriv) := by
+  simp [Crypto_get_aes_key_id_obj, Crypto_get_aes_key_id, keyAesId, magicAes]
+
 /-! ## signature.py -/
 
 theorem verify_sign_eq {W} (P : Prims W) (pk m s : Bytes) : verify_sign P pk m s = some (verifySign P pk m s) := by
